@@ -1,7 +1,7 @@
 (* C09 -- sFlow samples map to the flow message as documented.
-   Statements only; proofs in Proofs/PacketP.v. *)
+   Statements only; proofs in Proofs/PacketP.v, Proofs/SFlowE2E.v (composition with the frame dissector). *)
 From Coq Require Import List NArith Bool.
-From GF Require Import Base.Res Base.Bytes Model.Msg Model.Packet Model.SFlow Model.ProdSF Proofs.PacketP.
+From GF Require Import Base.Res Base.Bytes Model.Msg Model.Packet Model.SFlow Model.ProdSF Spec.Frame Spec.EncSFlow Proofs.PacketP Proofs.FrameP Proofs.SFlowE2E.
 Import ListNotations.
 Open Scope N_scope.
 
@@ -28,3 +28,29 @@ Theorem c09_gateway_as : forall cfg m r,
     (forall a l, nth 0 (rLists r) [] = a :: l -> mgetI m' cNextHopAs = a).
 Proof. exact sf_gateway_as. Qed.
 Print Assumptions c09_gateway_as.
+
+(* THE DOCUMENTED MAPPING of a flow sample with a raw Ethernet header, end to end: for EVERY well-formed frame f
+   (Spec/Frame.v: VLANs, MPLS, IPv4/IPv6 with extension headers, tunnels, TCP/UDP/ICMP) sampled in a flow
+   sample with ANY sampling rate, interfaces and frame length, the message has: type SFLOW_5, the sample's
+   sampling_rate, in_if, out_if, packets = 1, bytes = the sampled frame's length, and on top of these exactly
+   the columns of the dissected frame (MACs, ethertype, VLAN, MPLS, addresses, protocol, TOS, TTL, flow label,
+   fragment fields, ports, TCP flags, ICMP type/code, SRv6 segments, layer stack and sizes) -- `framed`.
+   The record's XDR padding behind the captured bytes does not disturb the dissection. *)
+Theorem c09_raw_header_flow_sample : forall f hdr rate pool drops inif outif flen stripped,
+  wf_frame f = true ->
+  exists m,
+    convert_sf empty_pcfg {| sKind := SFlowS; sHdr := hdr; sVals := [rate; pool; drops; inif; outif; 1];
+                             sRecs := [mk_header 1 flen stripped (encode_frame f)] |} = Ok m /\
+    meq m (framed (sample_base rate inif outif flen) f).
+Proof. exact raw_header_flow_sample. Qed.
+Print Assumptions c09_raw_header_flow_sample.
+
+(* expanded flow samples: the interfaces are the VALUE words of the expanded (format, value) pairs *)
+Theorem c09_raw_header_expanded_sample : forall f hdr rate pool drops infmt inif outfmt outif flen stripped,
+  wf_frame f = true ->
+  exists m,
+    convert_sf empty_pcfg {| sKind := SExpFlowS; sHdr := hdr; sVals := [rate; pool; drops; infmt; inif; outfmt; outif; 1];
+                             sRecs := [mk_header 1 flen stripped (encode_frame f)] |} = Ok m /\
+    meq m (framed (sample_base rate inif outif flen) f).
+Proof. exact raw_header_expanded_sample. Qed.
+Print Assumptions c09_raw_header_expanded_sample.
